@@ -202,6 +202,11 @@ class CLI:
                 except MosRoMgrException as e:
                     sys.stderr.write(f"{file}: Invalid\n")
                     continue
+                except OSError as e:
+                    # missing path, directory, permission problem: report it
+                    # and carry on with the remaining files
+                    sys.stderr.write(f"{file}: Unreadable ({e.strerror})\n")
+                    continue
                 self.detect_file(mo, file)
                 if inspect:
                     mo.inspect()
